@@ -463,8 +463,30 @@ def fam_cap(P, n, tier):
             buf = (P.choice([6, 7, 8, 9, 10, 12, 16, 20, 40]), P.choice([0, 1, 6, 7, 12, 20, 40]))
         sc = Scn('cap%d' % i, cap=P.choice(CAPS), buf_size=buf[0], ubuf_size=buf[1], fill=P.choice([0, 0x55, 0xAA, 0xFF]))
         asz = sc.asz()
-        mode = P.choice(['args', 'args', 'read', 'test', 'list', 'event'])
-        if mode == 'args':
+        mode = P.choice(['args', 'args', 'read', 'test', 'list', 'event', 'lanesfull'])
+        if mode == 'lanesfull':
+            # as many commands as the match lanes can hold: 4 per byte of the command buffer's capacity
+            if shared:
+                sc.buf_size = P.choice([12, 13, 14, 16])
+            else:
+                sc.buf_size = P.choice([6, 7, 8])
+            asz = sc.asz()
+            k = 4 * asz - P.choice([0, 0, 0, 1, 3, 4])
+            cmds = [Cmd('+N%d' % j + 'A' * (j % 3), run=True) for j in range(k)]
+            sc.add_group(cmds)
+            sched(P, sc, style=P.choice(['eager', 'rand']))
+            if P.chance(0.5):
+                ev = Cmd('+EV', r=True)
+                sc.add_extra(ev)
+                sc.script(1, ev.ci, 0, [Res(RC['DATA_OK'])] * 3)
+                sc.op('t %d %d' % (ev.ci, T_READ))
+                sc.service(P.choice([3, 4, 5, 6]))
+            for j in range(P.randint(1, 3)):
+                c = P.choice(cmds)
+                sc.feed('AT' + c.name + P.choice(['\n', '\r\n']))
+                sc.drain(3000)
+                sc.op('B')
+        elif mode == 'args':
             c = Cmd('+W', w=True, t=P.chance(0.3), implicit=False,
                     vars=([rand_var(P, types=(BUFSTR, BUFHEX), access=RW, maxbuf=64)] if P.chance(0.4) else []))
             c2 = Cmd('D', w=True, implicit=True)
@@ -1096,10 +1118,53 @@ def fam_exh(P, n, tier):
     return out
 
 
+def fam_mxev(P, n, tier):
+    """mutex configured, lock always succeeds, UNLOCK fails at chosen trigger calls: the call reports
+    ERROR_MUTEX_UNLOCK although its body ran, and the queue must stay consistent afterwards (later events are
+    still delivered exactly once, in order).  Every event command has read and test handlers with terminal
+    scripts, so every event taken from the queue is visible as a handler call."""
+    out = []
+    for i in range(n):
+        sc = Scn('mx%d' % i, cap=P.choice([2, 2, 3, 8, 1]), buf_size=P.choice([48, 64]), ubuf_size=P.choice([-1, 24]),
+                 fill=0, mutex=True)
+        sc.add_group([Cmd('+Q', run=True)])
+        evs = [Cmd('e%d' % j, r=True, t=True) for j in range(P.randint(1, 3))]
+        for e in evs:
+            sc.add_extra(e)
+            sc.script(1, e.ci, 0, [Res(P.choice([RC['DATA_OK'], RC['OK']]), ('{%d}' % k).encode()) for k in range(60)])
+            sc.script(3, e.ci, 0, [Res(P.choice([RC['DATA_OK'], RC['OK']]), ('{t%d}' % k).encode()) for k in range(60)])
+        sc.script(2, 0, 0, [Res(RC['OK'])] * 10)
+        nlock = 0
+        ul_fail = []
+        for j in range(P.randint(6, 30)):
+            roll = P.random()
+            if roll < 0.5:
+                if P.chance(0.25):
+                    ul_fail.append(nlock)
+                sc.op('t %d %d' % (P.choice(evs).ci, P.choice([T_READ, T_TEST])))
+                nlock += 1
+            elif roll < 0.6:
+                sc.op(P.choice(['u', 'b']))
+                nlock += 1
+            else:
+                k = P.choice([1, 2, 3, 7, 15])
+                sc.service(k)
+                nlock += k
+        total = nlock + 4100
+        ul = [True] * total
+        for x in ul_fail:
+            ul[x] = False
+        sc.ul = ul
+        sc.lk = [True] * total
+        sc.drain(4000)
+        out.append(sc)
+    return out
+
+
 FAMILIES = {
     'mixed': fam_mixed, 'names': fam_names, 'num': fam_num, 'buf': fam_buf, 'cap': fam_cap, 'rc': fam_rc,
     'events': fam_events, 'hold': fam_hold, 'mutex': fam_mutex, 'lines': fam_lines, 'rt': fam_rt,
-    'wo': fam_wo, 'list': fam_list, 'bytes': fam_bytes, 'sched': fam_sched, 'units': fam_units, 'lanes': fam_lanes, 'search': fam_search, 'exh': fam_exh,
+    'wo': fam_wo, 'list': fam_list, 'bytes': fam_bytes, 'sched': fam_sched, 'units': fam_units, 'lanes': fam_lanes, 'search': fam_search, 'exh': fam_exh, 'mxev': fam_mxev,
 }
 
 
